@@ -58,48 +58,18 @@ end Iodata.Props.C02
 namespace Iodata.Props.C02
 open Iodata.Chars Iodata.Decimal Iodata.Fmt Iodata.Gen.Layouts
 
-/-! ## SDF (V2000)
+/-! ## SDF (V2000) -/
 
-Full statement (what the property asks): `∀ o, Sdf.ColDom T L o → Sdf.load T L (Sdf.dump T L o) = .ok (Sdf.norm L o)`
-— every object the V2000 columns can hold (≤ 999 atoms and bonds, coordinates −9999.9999 … 99999.9999 Å).
-It is FALSE for the code as it is (`sdf_colDom_violated_*` below): `load_one` splits the records on
-blanks instead of cutting columns, so two fields that touch are read as one word.  Proved is the
-statement on `Sdf.Dom` = `ColDom` minus exactly those objects (a field other than the first of its
-record fills its column). -/
-
-/-- SDF, partial: on the objects whose y/z coordinates, bond count, second bond atom and bond type leave
-a blank in their columns, the written file is read back as the object (default title filled in). -/
-theorem sdf_load_dump_partial (T : Tables) (L : Sdf.Layout) (hL : Sdf.LayoutOK L) (o : Sdf.Obj) (h : Sdf.Dom T L o) :
+/-- SDF: every object the V2000 columns can hold (counts, atom numbers and bond types that fit three
+columns — up to 999 atoms and bonds —, coordinates that fit `10.4f`: −9999.9999 … 99999.9999 Å, fields may
+touch) is read back from the written file as itself (default title filled in). -/
+theorem sdf_load_dump (T : Tables) (L : Sdf.Layout) (hL : Sdf.LayoutOK L) (o : Sdf.Obj) (h : Sdf.Dom T L o) :
     Sdf.load T L (Sdf.dump T L o) = .ok (Sdf.norm L o) :=
   Sdf.load_dump T L hL o h
 
-/-- a molecule of 100 carbon atoms at the origin -/
-def sdfC100 : List Sdf.Atom := List.replicate 100 ⟨⟨false, 0⟩, ⟨false, 0⟩, ⟨false, 0⟩, 6⟩
-
-/-- SDF violated (bond record): a single bond between atoms 1 and 100 of a 100-atom molecule is written
-as `  1100  1  0  0  0  0` and read back as a bond between atoms 1100 and 1 of type 0 — silently. -/
-theorem sdf_colDom_violated_bond :
-    Sdf.ColDom tables sdfL ⟨['t'], sdfC100, [⟨0, 99, 1⟩]⟩ ∧
-    Sdf.load tables sdfL (Sdf.dump tables sdfL ⟨['t'], sdfC100, [⟨0, 99, 1⟩]⟩) = .ok ⟨['t'], sdfC100, [⟨1099, 0, 0⟩]⟩ := by
-  decide +kernel
-
-/-- SDF violated (atom record): y = −1000.0000 Å fills its ten columns; the file cannot be read back. -/
-theorem sdf_colDom_violated_coord :
-    Sdf.ColDom tables sdfL ⟨['t'], [⟨⟨false, 10000⟩, ⟨true, 10000000⟩, ⟨false, 0⟩, 6⟩], []⟩ ∧
-    Sdf.load tables sdfL (Sdf.dump tables sdfL ⟨['t'], [⟨⟨false, 10000⟩, ⟨true, 10000000⟩, ⟨false, 0⟩, 6⟩], []⟩)
-      = .error .float := by
-  decide +kernel
-
-/-- SDF violated (counts record): 100 bonds on two atoms: the counts line reads `  2100  0 …`. -/
-theorem sdf_colDom_violated_counts :
-    let o : Sdf.Obj := ⟨['t'], [⟨⟨false, 0⟩, ⟨false, 0⟩, ⟨false, 0⟩, 6⟩, ⟨⟨false, 0⟩, ⟨false, 0⟩, ⟨false, 0⟩, 6⟩],
-      List.replicate 100 ⟨0, 1, 1⟩⟩
-    Sdf.ColDom tables sdfL o ∧ failed (Sdf.load tables sdfL (Sdf.dump tables sdfL o)) = true := by
-  decide +kernel
-
 /-- SDF: objects with known elements are written, not refused. -/
 theorem sdf_written_not_refused (T : Tables) (L : Sdf.Layout) (o : Sdf.Obj)
-    (h : ∀ a ∈ o.atoms, Sdf.okZ T a.zn = true) : Sdf.dumpE T L o = .ok (Sdf.dump T L o) := by
+    (h : ∀ a ∈ o.atoms, Sdf.okZ T L a.zn = true) : Sdf.dumpE T L o = .ok (Sdf.dump T L o) := by
   unfold Sdf.dumpE
   have : (o.atoms.all fun a => (T.sym? a.zn).isSome) = true := by
     rw [List.all_eq_true]; intro a ha
@@ -107,16 +77,23 @@ theorem sdf_written_not_refused (T : Tables) (L : Sdf.Layout) (o : Sdf.Obj)
     simp [hs]
   simp [this]
 
-/-- SDF: the layout in the source satisfies the side conditions; all elements usable. -/
-theorem sdf_layout_ok : Sdf.LayoutOK sdfL ∧ ∀ z ∈ List.range' 1 118, Sdf.okZ tables z = true := by
+/-- SDF: the layout in the source satisfies the side conditions — in particular the writer's columns
+are the reader's slices — and all elements are usable. -/
+theorem sdf_layout_ok : Sdf.LayoutOK sdfL ∧ ∀ z ∈ List.range' 1 118, Sdf.okZ tables sdfL z = true := by
   decide +kernel
 
-/-- SDF: the writer in the source has exactly the fields the model prints. -/
-theorem sdf_writer_shape : sdf_writes = Sdf.expectedWrites sdfL := by decide +kernel
+/-- SDF: the writer and the reader in the source have exactly the fields / slices the model uses. -/
+theorem sdf_source_shape : sdf_writes = Sdf.expectedWrites sdfL ∧ sdf_slices = Sdf.expectedSlices sdfL := by
+  decide +kernel
 
-/-- non-vacuity of the proved part at its boundary: 999 atoms would be too slow to list here, so:
-y = −999.9999 and z = 9999.9999 (nine characters), second bond atom 99, 99 bonds is the most. -/
-example : Sdf.Dom tables sdfL ⟨[], sdfC100 ++ [⟨⟨true, 99999999⟩, ⟨true, 9999999⟩, ⟨false, 99999999⟩, 118⟩],
-    [⟨100, 98, 8⟩, ⟨99, 0, 1⟩]⟩ := by decide +kernel
+def sdfC100 : List Sdf.Atom := List.replicate 100 ⟨⟨false, 0⟩, ⟨false, 0⟩, ⟨false, 0⟩, 6⟩
+
+/-- non-vacuity at the boundaries (the former counter-examples): bond between atoms 101 and 110 written
+`101110  1`, x = 99999.9999, y = −9999.9999 touching, 100 bonds (counts line `101100`). -/
+example : Sdf.Dom tables sdfL ⟨[], sdfC100 ++ [⟨⟨false, 999999999⟩, ⟨true, 99999999⟩, ⟨true, 0⟩, 118⟩],
+    ⟨100, 98, 8⟩ :: List.replicate 99 ⟨99, 100, 1⟩⟩ := by decide +kernel
+
+example : Sdf.load tables sdfL (Sdf.dump tables sdfL ⟨['t'], sdfC100 ++ sdfC100, [⟨100, 109, 1⟩]⟩)
+    = .ok ⟨['t'], sdfC100 ++ sdfC100, [⟨100, 109, 1⟩]⟩ := by decide +kernel
 
 end Iodata.Props.C02
